@@ -5,19 +5,35 @@
 (* The state graph is the one of RoleTree!Spec.                               *)
 EXTENDS RoleTree
 
-G_Begin(t, l, k, v) == Begin(t, l, k, v)
+CONSTANT Priority   \* TRUE: schedules the harness can impose (simulation); FALSE: all interleavings (model checking)
+
+\* a merge waiting for a lock goes on by itself as soon as the lock is free: in a schedule the harness
+\* can impose nothing else happens in between
+Auto == Priority /\ \E t \in Threads : thr[t].pc = "blocked" /\ lock[thr[t].kind][thr[t].at] = 0
+
+G_Begin(t, l, k, v) == ~Auto /\ Begin(t, l, k, v)
 \* (TLC labels a step with the operator and its arguments only when the quantifier ranges over
 \* constant sets: the guard l \in Leaves is inside Begin)
 NodeIds == 1..8
 ASSUME \A s \in DOMAIN Shapes : Len(Shapes[s].parent) \in NodeIds
-G_MergeAt(t) == MergeAt(t)
-G_ReadCache(t) == ReadCache(t)
-G_Deliver(t) == Deliver(t)
+\* Readers of a cache also take the role's (read) lock: the unlocked re-read in ReadCache, and the walk
+\* over the children in merge. RoleTree over-approximates them (a read never waits); the schedules
+\* imposed on the real code avoid them, so that the only thread ever made to wait is the one probing
+\* the lock of the very role another update is merging into.
+Held(k, n) == \E t \in Threads : thr[t].pc = "computed" /\ thr[t].kind = k /\ thr[t].at = n
+ChildHeld(t) == \E c \in Nodes : Parent(c) = thr[t].at /\ Held(thr[t].kind, c)
+G_MergeEnter(t) == ~Auto /\ thr[t].pc = "call" /\ ~ChildHeld(t) /\ MergeEnter(t)
+G_MergeUnblock(t) == MergeUnblock(t)
+G_MergeAssign(t) == ~Auto /\ MergeAssign(t)
+G_ReadCache(t) == ~Auto /\ thr[t].pc = "merged" /\ ~Held(thr[t].kind, thr[t].at) /\ ReadCache(t)
+G_Deliver(t) == ~Auto /\ Deliver(t)
 
 GenNext ==
   \/ \E t \in Threads, l \in NodeIds, k \in Kinds, v \in TaskStates \cup CallStates \cup LeafStatuses :
         G_Begin(t, l, k, v)
-  \/ \E t \in Threads : G_MergeAt(t)
+  \/ \E t \in Threads : G_MergeEnter(t)
+  \/ \E t \in Threads : G_MergeUnblock(t)
+  \/ \E t \in Threads : G_MergeAssign(t)
   \/ \E t \in Threads : G_ReadCache(t)
   \/ \E t \in Threads : G_Deliver(t)
 
